@@ -66,7 +66,116 @@ def spec_depth(t):
     return m
 
 
+# ---- a transliteration of the crate's present template scanner (format/src/format.rs FormatString::from_str), used
+# only to pin down the known deviations: an observation belongs to a known class only if the crate did exactly what
+# this model does, so any *other* behaviour in the same region is reported
+def _m_literal(text):
+    res, cur = "", text
+    while cur:
+        c = cur[0]
+        if c in "{}":
+            if len(cur) < 2 or cur[1] != c:
+                return ("OK", ("L", res), cur) if res else ("ERR", "UnescapedStartBracketInLiteral")
+            cur = cur[2:]
+        else:
+            cur = cur[1:]
+        res += c
+    return ("OK", ("L", res), "")
+
+
+def _m_in_brackets(text):
+    left, right, split = "", "", False
+    i, n = 0, len(text)
+    while i < n:
+        ch = text[i]
+        i += 1
+        if ch == "[":
+            if split:
+                right += ch
+            else:
+                left += ch
+            while i < n:
+                nc = text[i]
+                i += 1
+                if split:
+                    right += nc
+                else:
+                    left += nc
+                if nc == "]":
+                    break
+                if i >= n:
+                    return ("ERR", "MissingRightBracket")
+        elif ch == ":" and not split:
+            split = True
+        elif split:
+            right += ch
+        else:
+            left += ch
+    parts = left.split("!", 1)
+    conv = None
+    if len(parts) == 2:
+        if len(parts[1]) != 1:
+            return ("ERR", "UnknownConversion")
+        conv = parts[1]
+    return ("OK", ("F", parts[0], conv, right if split else ""))
+
+
+def _m_spec(text):
+    nested, end, left = False, None, ""
+    for idx, c in enumerate(text):
+        if idx == 0:
+            if c != "{":
+                return ("ERR", "MissingStartBracket")
+        elif c == "{":
+            if nested:
+                return ("ERR", "InvalidFormatSpecifier")
+            nested = True
+            left += c
+        elif c == "}":
+            if nested:
+                nested = False
+                left += c
+            else:
+                end = idx
+                break
+        else:
+            left += c
+    if end is None:
+        return ("ERR", "UnmatchedBracket")
+    r = _m_in_brackets(left)
+    if r[0] == "ERR":
+        return r
+    return ("OK", r[1], text[end + 1:])
+
+
+def model_template(text):
+    cur, out = text, []
+    while cur:
+        r = _m_literal(cur)
+        if r[0] == "ERR":
+            r = _m_spec(cur)
+        if r[0] == "ERR":
+            return r
+        part = r[1]
+        if part[0] == "L" and out and out[-1][0] == "L":
+            out[-1] = ("L", out[-1][1] + part[1])
+        else:
+            out.append(part)
+        cur = r[2]
+    return ("OK", out)
+
+
 def classify_template(t, py, rs):
+    if rs[0] != "PANIC" and _norm(rs) != _norm(model_template(t)):
+        return None
+    return _classify_template(t, py, rs)
+
+
+def _norm(r):
+    return (r[0], [tuple(x) for x in r[1]]) if r[0] == "OK" else (r[0], r[1].split("(")[0])
+
+
+def _classify_template(t, py, rs):
     """Known deviations all concern an index bracket `[` inside a replacement field: Python scans `[`...`]` as an
     opaque unit (so `!`, `:`, `{`, `}` inside it belong to the field name, and a missing `]` is an error of its
     own), this crate looks for `!` / `:` / braces first."""
